@@ -18,6 +18,31 @@ struct Probe {
     std::string ref[2];
 };
 static const gr_encform kEnc[3] = {gr_utf8, gr_utf16, gr_utf32};
+// single label queries: the reference is the same query as the FIRST label query of a brand-new face (a face-level name-table
+// cursor or cache that an earlier query moved would show as a difference)
+struct LabelProbe { unsigned feat; int setting; uint16_t lang; int enc; std::string ref[2]; };
+static std::string run_label(const gr_face *f, const LabelProbe &p) {
+    const gr_feature_ref *fr = gr_face_fref(f, uint16_t(p.feat));
+    if (!fr) return "no-fref";
+    uint16_t lang = p.lang;
+    uint32_t len = 0;
+    void *lab = p.setting < 0 ? LIB(gr_fref_label(fr, &lang, kEnc[p.enc], &len)) : LIB(gr_fref_value_label(fr, uint16_t(p.setting), &lang, kEnc[p.enc], &len));
+    std::string s = fmt("lang=%x len=%u %s", lang, len, label_str(lab, kEnc[p.enc], len).c_str());
+    if (lab) LIBV(gr_label_destroy(lab));
+    return s;
+}
+static LabelProbe draw_label(Rng &r, const gr_face *f) {
+    LabelProbe p;
+    unsigned nf = gr_face_n_fref(f);
+    p.feat = nf ? r.below(nf) : 0;
+    const gr_feature_ref *fr = nf ? gr_face_fref(f, uint16_t(p.feat)) : nullptr;
+    unsigned nv = fr ? gr_fref_n_values(fr) : 0;
+    p.setting = (nv && r.chance(0.5)) ? int(r.below(nv)) : -1;
+    static const uint16_t langs[] = {0x409, 0x40C, 0x809, 0x407, 0x411, 0x80C, 0, 0xFFFF};
+    p.lang = langs[r.below(8)];
+    p.enc = int(r.below(3));
+    return p;
+}
 
 static gr_feature_val *mkfeat(const gr_face *f, const Probe &p) {
     if (p.fmode == 0) return nullptr;
@@ -75,6 +100,9 @@ int main(int argc, char **argv) {
     Rng pr(mix(a.seed, 77, uint64_t(a.shard)));
     std::vector<Probe> probes;
     for (int i = 0; i < nprobes; ++i) probes.push_back(draw_probe(pr, f0, rep, lines));
+    std::vector<LabelProbe> lprobes;
+    int nlprobes = gr_face_n_fref(f0) ? int(a.geti("lprobes", 6)) : 0;
+    for (int i = 0; i < nlprobes; ++i) lprobes.push_back(draw_label(pr, f0));
     LIBV(gr_face_destroy(f0));
     set_case(-1, "computing reference probes on fresh faces of %s", fontpath.c_str());
     std::string ref_report[2];
@@ -82,6 +110,11 @@ int main(int argc, char **argv) {
         for (auto &p : probes) {
             gr_face *fr = LIB(gr_make_file_face(fontpath.c_str(), opts[o]));
             p.ref[o] = run_probe(fr, p);
+            LIBV(gr_face_destroy(fr));
+        }
+        for (auto &p : lprobes) {
+            gr_face *fr = LIB(gr_make_file_face(fontpath.c_str(), opts[o]));
+            p.ref[o] = run_label(fr, p);
             LIBV(gr_face_destroy(fr));
         }
         gr_face *fr = LIB(gr_make_file_face(fontpath.c_str(), opts[o]));
@@ -131,9 +164,9 @@ int main(int argc, char **argv) {
                 pool.pop_back();
                 hist += 'D';
                 st.add("op_destroy");
-            } else if (op == 6) {                        // label / feature queries
-                std::string rp = face_report(live, r.chance(0.7));
-                hist += 'Q';
+            } else if (op == 6) {                        // label / feature queries: the whole report, or single labels in random order
+                if (r.chance(0.5)) { std::string rp = face_report(live, r.chance(0.7)); hist += 'Q'; }
+                else { for (int n = r.range(1, 3); n > 0; --n) run_label(live, draw_label(r, live)); hist += 'L'; }
                 st.add("op_query");
             } else if (op == 7) {                        // feature values: create / clone / set / destroy
                 unsigned nf = gr_face_n_fref(live);
@@ -163,6 +196,14 @@ int main(int argc, char **argv) {
                 else if (d != "NULL\n" && probes[pi].text.size() >= 2) st.add("nontrivial");
                 // repeating the call gives the same result again
                 if (r.chance(0.2) && run_probe(live, probes[pi]) != d) V("repeat-differs", "the same call repeated immediately gives another segment");
+                if (!lprobes.empty()) {
+                    size_t li = r.below(uint32_t(lprobes.size()));
+                    const LabelProbe &lp = lprobes[li];
+                    set_case(k, "history font=%s options=%u ops=%s label probe=%zu (feature %u setting %d lang %x enc %d)", fontpath.c_str(), opts[o], hist.c_str(), li, lp.feat, lp.setting, lp.lang, 1 << lp.enc);
+                    std::string l = run_label(live, lp);
+                    st.add("label_probes_compared");
+                    if (l != lp.ref[o]) V("label-differs", "after history %s the label query gives [%s], as first query of a fresh face it gives [%s]", hist.c_str(), l.c_str(), lp.ref[o].c_str());
+                }
             }
         }
         std::string rp = face_report(live);
